@@ -62,6 +62,11 @@ let run_hist ?(spec_like = false) (noop : bool) (step : world -> wop -> (world *
            (match apply (WRegister (ni (arg 1), ni (arg 2), zi (arg 3))) with
             | Some (ONat n) -> add (if noop then "r=ok" else "r=" ^ string_of_int (int_of_nat n))
             | _ -> abort ())
+         | "rx" ->
+           (* recoverable abort: the refused registration leaves the state as it was and the history goes on *)
+           (match apply (WRegister (ni (arg 1), ni (arg 2), zi (arg 3))) with
+            | Some (ONat n) -> add (if noop then "rx=ok" else "rx=" ^ string_of_int (int_of_nat n))
+            | _ -> add "rx=ABORT")
          | "fill" ->
            let i = arg 1 and n = arg 2 in
            let ok = ref true in
